@@ -21,6 +21,8 @@ def main():
         mod = importlib.import_module('harness.' + mod_name)
         patches = models.overrides(m1=getattr(mod, 'M1', True))
         models.install_opcode_models(m1=getattr(mod, 'M1', True))
+        if getattr(mod, 'FLOATS_AS_REALS', False):
+            models.floats_as_reals()
         jobs = {j.id: j for j in mod.jobs(tier)}
         job = jobs[job_id]
         scale = float(os.environ.get('VERIF_BUDGET_SCALE', '1'))
